@@ -27,7 +27,7 @@ def expected_summary(kind):
     return [Sym('summary'), v == 'passed', v == 'failed', v == 'skipped']
 
 
-def run_module(path, ids, command, verbose):
+def run_module(path, ids, command, verbose, options=None):
     """-> (observations dict, problems list) for one command on one module"""
     from xdoctest import runner, core
     import xdoctest.__main__ as xmain
@@ -35,7 +35,8 @@ def run_module(path, ids, command, verbose):
     buf = io.StringIO()
     try:
         with contextlib.redirect_stdout(buf), contextlib.redirect_stderr(io.StringIO()):
-            rs = runner.doctest_module(path, command=command, argv=[], verbose=verbose, style='auto', analysis='static')
+            rs = runner.doctest_module(path, command=command, argv=[], verbose=verbose, style='auto', analysis='static',
+                                        config={'default_runtime_state': dict(options)} if options else None)
     except BaseException as e:      # noqa
         return None, ['doctest_module(%r) raised %s: %s' % (command, type(e).__name__, str(e)[:200])]
     out = buf.getvalue()
@@ -59,7 +60,7 @@ def run_module(path, ids, command, verbose):
     return obs, problems
 
 
-def main_exit(path, command):
+def main_exit(path, command, options=None):
     """in-process __main__.main return value"""
     import xdoctest.__main__ as xmain
     try:
@@ -67,7 +68,7 @@ def main_exit(path, command):
             cwd = os.getcwd()
             os.chdir(os.path.dirname(path))       # main() reads pyproject.toml / pytest.ini of the cwd
             try:
-                return xmain.main(argv=['xdoctest', path, command, '--analysis', 'static'])
+                return xmain.main(argv=['xdoctest', path, command, '--analysis', 'static'] + (['--options=' + options] if options else []))
             finally:
                 os.chdir(cwd)
     except SystemExit as e:
@@ -78,6 +79,10 @@ def main_exit(path, command):
 
 # the directory the module lives in: any legal directory name (braces, blanks, per cent signs, quotes, non-ASCII letters)
 SUBDIRS = ['', 'plain', 'proj{v2}', 'with space', 'build{}tmp', '100%s done', 'caf\xe9', "it's", '{0}']
+
+
+# default options that restate the built-in defaults: (--options text, default_runtime_state)
+OPTIONS = [('+ELLIPSIS', {'ELLIPSIS': True}), ('-SKIP', {'SKIP': False}), ('-NORMALIZE_WHITESPACE', {'NORMALIZE_WHITESPACE': False})]
 
 
 def _worker(job):
@@ -100,14 +105,16 @@ def _worker(job):
         except Exception:
             pass
     results = []
+    # every other module is run with default options given (here: ones that restate the built-in defaults, so nothing else changes)
+    opts = OPTIONS[(idx // 2) % len(OPTIONS)] if idx % 2 else None
     cmds = ['all', 'list'] + [u for u, _, _ in ids] + sorted(set(c for _, c, _ in ids)) + ['no_such_doctest']
     for cmd in cmds:
-        obs, problems = run_module(path, ids, cmd, verbose)
-        ex = main_exit(path, cmd) if cmd in ('all',) or (cmd.endswith(':0') and idx % 3 == 0) else None
+        obs, problems = run_module(path, ids, cmd, verbose, opts and opts[1])
+        ex = main_exit(path, cmd, opts and opts[0]) if cmd in ('all',) or (cmd.endswith(':0') and idx % 3 == 0) else None
         results.append((cmd, obs, problems, ex))
     for k in [k for k in sys.modules if k.startswith('xdverif_c10_')]:
         del sys.modules[k]
-    return (kinds, layout + ' @dir=' + subdir, ids, src, results)
+    return (kinds, layout + (' @opts=' + opts[0] if opts else '') + ' @dir=' + subdir, ids, src, results)
 
 
 def run(ctx):
@@ -268,8 +275,10 @@ def replay(path):
         os.makedirs(os.path.join(tmp, subdir), exist_ok=True)
         p = os.path.join(tmp, subdir, 'xdverif_c10_replay.py')
         open(p, 'w').write(d['module_source'])
-        obs, problems = run_module(p, d['doctests'], d['command'], 0)
-        obs2, problems2 = run_module(p, d['doctests'], d['command'], 2)
+        lay = d.get('layout', '')
+        opts = dict((o[0], o[1]) for o in OPTIONS).get(lay.split(' @opts=')[1].split(' @dir=')[0]) if ' @opts=' in lay else None
+        obs, problems = run_module(p, d['doctests'], d['command'], 0, opts)
+        obs2, problems2 = run_module(p, d['doctests'], d['command'], 2, opts)
         problems = list(problems) + [x for x in problems2 if x not in problems]
         print('command=%r observed=%r problems=%r (recorded: %s)' % (d['command'], obs, problems, d['what']))
         kind_of = {u: k for u, _, k in d['doctests']}
